@@ -55,6 +55,7 @@ Proof.
   - destruct (Nat.ltb c _); cbn; discriminate.
   - destruct t as [t|i].
     + destruct (Nat.ltb_spec t (length (classes st))) as [H|H]; [|cbn; discriminate].
+      destruct (has_key _ _); [cbn; discriminate|].
       unfold do_insert. destruct (walk_subclasses_some _ t H) as [w ->]. cbn. discriminate.
     + destruct (nth_error (insts st) i); [|cbn; discriminate].
       destruct (has_key _ _); cbn; discriminate.
